@@ -137,6 +137,11 @@ def run_sysrig(binary, scenarios, par=12, timeout=1500, tag="sys"):
     inp = os.path.join(d, "%s-%d.in.ndjson" % (tag, vlib._tlc_seq[0]))
     outp = os.path.join(d, "%s-%d.out.ndjson" % (tag, vlib._tlc_seq[0]))
     vlib.write_ndjson(inp, scenarios)
+    f = corerig.time_scale()
+    if f > 1:
+        scenarios = [dict(s, bound_ms=int(s.get("bound_ms", SYS_BOUND_MS) * f)) for s in scenarios]
+        vlib.write_ndjson(inp, scenarios)
+        timeout, par = timeout * f, max(4, int(par / f))
     r = vlib.run([binary, "-par", str(par), inp, outp], timeout=timeout)
     if r.timed_out or r.rc != 0 or not os.path.exists(outp):
         raise vlib.Inconclusive("system rig failed (rc=%s timeout=%s):\n%s" % (r.rc, r.timed_out, r.out[-4000:]))
@@ -164,7 +169,7 @@ def preflight():
         return False
 
 
-def judge_sys(chk, binary, scs, results):
+def judge_sys(chk, binary, scs, results, bound_ms=None):
     by_name = {s["name"]: s for s in scs}
     bad = corerig.validate(chk, SPECDIR, "Tunnel_Trace", "Trace.cfg", [results[n] for n in sorted(results)])
     for res, kind, detail, local, ev in bad:
@@ -175,18 +180,49 @@ def judge_sys(chk, binary, scs, results):
     stalled = [n for n in sorted(results) if results[n].get("stalled")]
     if stalled and not bad:
         chk.note("system rig: %d scenario(s) stalled; confirming alone with doubled limits: %s" % (len(stalled), stalled[:3]))
-        confirm = [dict(by_name[n], name=n + "-confirm", bound_ms=2 * SYS_BOUND_MS) for n in stalled[:3]]
-        r2, _, _, _ = run_sysrig(binary, confirm, par=3, timeout=2 * SYS_BOUND_MS / 1000 + 600, tag="sysconfirm")
+        bound_ms = bound_ms or SYS_BOUND_MS
+        confirm = [dict(by_name[n], name=n + "-confirm", bound_ms=2 * bound_ms) for n in stalled[:3]]
+        r2, _, _, _ = run_sysrig(binary, confirm, par=3, timeout=2 * bound_ms / 1000 + 600, tag="sysconfirm")
         for sc in confirm:
             res2 = r2[sc["name"]]
             n = sc["name"][:-len("-confirm")]
             if res2.get("stalled"):
                 chk.violation("C01/sys/stall/after:%s" % corerig.fault_position(res2, None),
-                              "system rig: no progress for %d ms after the last fault although the broker kept handing out healthy proxies: %s" % (2 * SYS_BOUND_MS, res2.get("state")),
+                              "system rig: no progress for %d ms after the last fault although the broker kept handing out healthy proxies: %s" % (2 * bound_ms, res2.get("state")),
                               {"system": True, "scenario": by_name[n], "state": res2.get("state"), "events": res2["events"][:80]})
             else:
-                chk.note("stall of %s not reproduced alone" % n)
+                chk.fail("system rig: stall of %s not reproduced alone with doubled limits (no verdict)" % n)
     return bad, stalled
+
+
+QUICK_BOUND_MS = 70000
+
+
+def run_system_quick(chk, out):
+    """Quick tier: the freeze scenario (needs WebRTCPeer.checkForStaleness:
+    20 s of silence, then the spare peer) and the D15 regression, ~25 s."""
+    if not preflight():
+        chk.cov.setdefault("skipped_clauses", []).append("system rig (quick): no non-loopback interface for WebRTC")
+        return
+    binary = vlib.go_build("./cmd/sysrig", "sysrig", linkflag=True)
+    scs = [
+        {"name": "c01-sysq-freeze", "seed": chk.seed, "up": 300000, "down": 300000, "max": 2, "bound_ms": QUICK_BOUND_MS,
+         "peers": [{"answer": "ok", "ip": "192.0.2.7", "fault": {"kind": "freeze", "after_up": 40000, "after_down": 40000}},
+                   {"answer": "ok", "ip": "2001:db8::5"}],
+         "origin": {"module": "Tunnel", "steps": [["WriteId", ["A", 1]], ["Freeze", [1]], ["StaleClose", ["A"]], ["Pop", ["A", 2]], ["WriteId", ["A", 2]]]}},
+        {"name": "c01-sysq-gate", "seed": chk.seed, "up": 100000, "down": 100000, "max": 2, "bound_ms": QUICK_BOUND_MS,
+         "peers": [{"answer": "ok", "ip": "192.0.2.7", "gate": True}, {"answer": "ok", "ip": "192.0.2.7"}],
+         "origin": {"module": "Tunnel", "steps": [["Pop", ["A", 1]], ["Cut", [1]], ["WriteIdFails", ["A", 1]], ["Pop", ["A", 2]]]}},
+    ]
+    results, summary, o, races = run_sysrig(binary, scs, par=2, timeout=400, tag="sysq")
+    chk.note("system rig (quick): %d done, %d stalled, %d faults fired, %.0fs" % (summary["done"], summary["stalled"], summary["faults"], summary["wall_ms"] / 1000.0))
+    judge_sys(chk, binary, scs, results, bound_ms=QUICK_BOUND_MS)
+    fr = results.get("c01-sysq-freeze", {})
+    stale = [e for e in fr.get("events", []) if e["ev"] == "car.end"]
+    chk.cov["system_quick"] = {"scenarios": len(results), "done": summary["done"], "freeze_recovered_after_ms": fr.get("wall_ms")}
+    chk.cov["evaluations"] += len(results)
+    chk.cov["distinct_nontrivial"] += sum(1 for r in results.values() if r.get("faults", 0) > 0)
+    out["done"] = summary["done"]
 
 
 def run_system(chk):
